@@ -191,6 +191,24 @@ func init() {
 				{"after-break", "<@each(v in [1, 2])a@break", "@end>", "\x00a"},
 				{"after-continue", "<@each(v in [1, 2])a@continue", "@end>", "\x00aa"},
 				{"after-slot-keyword", "<@component(\"c\")@slot", "@end@end>", "\x00skip"},
+				// headers with richer arguments: nested object literals (their closing braces stand side by side), trailing
+				// commas, strings holding parentheses and braces; @else bodies of loops over arrays that built-ins emptied
+				{"after-if-nested-objects", "<@if({a: {b: 1}}.a.b == 1)", "@end>", ""},
+				{"after-if-quoted-keys", "<@if({\"a\": {\"b\": {\"c\": 1}}}.a.b.c == 1)", "@end>", ""},
+				{"after-each-nested-objects", "<@each(u in [{name: {first: \"A\"}}])", "@end>", ""},
+				{"after-elseif-nested-objects", "<@if(0)X@elseif({a: {b: [1, {c: 2}]}}.a.b[1].c == 2)", "@else Z@end>", ""},
+				{"after-each-trailing-comma", "<@each(n in [\"a\",])", "@end>", ""},
+				{"after-if-trailing-comma", "<@if([1, 2,].len() == 2)", "@end>", ""},
+				{"after-if-call-trailing-comma", "<@if(\"abc\".contains(\"a\",))", "@end>", ""},
+				{"after-if-object-trailing-comma", "<@if({a: 1, b: 2,}.b == 2)", "@end>", ""},
+				{"after-if-string-with-parens", "<@if(\"a)b(\".len() == 4)", "@end>", ""},
+				{"after-if-string-with-braces", "<@if(\"}}\".len() == 2 ? {x: {y: true}}.x.y : false)", "@end>", ""},
+				{"after-each-ternary-source", "<@each(v in true ? [1] : [])", "@end>", ""},
+				{"in-each-else-of-sliced-empty", "<@each(n in [1].slice(1))X@else", "@end>", ""},
+				{"in-each-else-of-sliced-data", "<@each(n in [1, 2, 3].slice(1).slice(1).slice(1))X@else", "@end>", ""},
+				{"in-each-else-of-reversed-empty", "<@each(n in [].reverse())X@else", "@end>", ""},
+				{"in-for-else", "<@for(k = 0; k < 0; k++)X@else", "@end>", ""},
+				{"in-nested-each-else", "<@each(o in [1])@each(n in [o].slice(1))X@else", "@end@end>", ""},
 			}
 			holeTexts := append(append([]string{}, texts...), "i", "f", "of", "off", "it works", "If", "Ifx", "if", "iffy", "Ignored", "I", "Is skipped", "IF", "I@end", "Iff", "(see note)", "( x )", "e", "end", "else", "each x", "for", "x@", "a@b.c")
 			secs = append(secs, core.Section{Name: "text-in-blocks", Exhaustive: true, N: len(holeTexts),
@@ -202,7 +220,7 @@ func init() {
 					}
 					for _, h := range holes {
 						// "@else" + "if…" spells @elseif; "@break"/"@continue" + "If…" their conditional forms
-						if h.name == "after-else" && strings.HasPrefix(t, "if") {
+						if strings.HasSuffix(h.pre, "@else") && strings.HasPrefix(t, "if") {
 							continue
 						}
 						if (h.name == "after-break" || h.name == "after-continue") && strings.HasPrefix(t, "If") {
